@@ -115,9 +115,45 @@ func c05ActiveScan(r *Run, site *decisionSite) {
 				}
 			}
 		}
+		// the scan may be left early only once the recorded active replica set has been found: every
+		// edge leaving the loop from a block other than its header carries the fact name == active
+		// (or leaves the function with an error)
+		ff := r.Prog.factsOf(fn)
+		for _, lb := range fn.Blocks {
+			if lb == h || !inLoop(lb) {
+				continue
+			}
+			for _, s := range lb.Succs {
+				if inLoop(s) || s == h {
+					continue
+				}
+				found := false
+				for _, f := range ff.FactsAtEdge(lb, s) {
+					if f.Pol && isEqCompare(f.V, loadOfPath(nil, "Name"), loadOfPath(nil, "Status", "ActiveReplicaSet")) {
+						found = true
+					}
+				}
+				if !found {
+					for _, f := range ff.At(lb) {
+						if f.Pol && isEqCompare(f.V, loadOfPath(nil, "Name"), loadOfPath(nil, "Status", "ActiveReplicaSet")) {
+							found = true
+						}
+					}
+				}
+				if ret := returnOf(s); ret != nil && len(ret.Results) > 0 {
+					if e := ret.Results[len(ret.Results)-1]; !isNilConst(e) && typeName(e.Type()) == "error" {
+						found = true
+					}
+				}
+				if !found {
+					ok = false
+					detail = "the scan can be left at " + r.Prog.Pos(instrPos(lb.Instrs[len(lb.Instrs)-1])) + " before every listed replica set was compared, without having found the recorded active one"
+				}
+			}
+		}
 		r.paths += n
 		r.Check("C05.R8", "active replica set scan", r.Prog.Pos(cb.Instrs[0].Pos()), shortFunc(fn),
-			"every iteration over the listed replica sets compares the item's name with status.activeReplicaSet", ok && n > 0, detail)
+			"every iteration over the listed replica sets compares the item's name with status.activeReplicaSet, and the scan ends early only once it was found", ok && n > 0, detail)
 	}
 }
 
@@ -125,6 +161,9 @@ func c05ActiveScan(r *Run, site *decisionSite) {
 
 func c07Imports(r *Run) {
 	r.Floor("C07.R7", 6)
+	r.Floor("C07.R10", 3)
+	r.ImportFrom(runC09, map[string]string{"C09.R3": "C07.R10"}, map[string]string{
+		"C07.R10": "the creation ramp of the replica set rolled back to is computed from the right operands (increase, elapsed time since activation, interval): with swapped operands the long-active replica set never re-creates the pods of the former canary nodes"})
 	r.Floor("C07.R9", 1)
 	r.ImportFromIf(runC03, map[string]string{"C03.R3": "C07.R9"}, map[string]string{
 		"C07.R9": "every input the limits function reads is filled by the planner — in particular the credit for old pods that are already unavailable, without which crash-looping pods of the failed canary are never replaced after the rollback"},
@@ -134,6 +173,7 @@ func c07Imports(r *Run) {
 }
 
 func c08Imports(r *Run) {
+	c08ControllerKeepsPauseAnnotations(r)
 	r.Floor("C08.R5", 3)
 	r.Floor("C08.R6", 4)
 	r.ImportFrom(runC19, map[string]string{"C19.R5": "C08.R5"}, map[string]string{
@@ -470,5 +510,223 @@ func c17Imports(r *Run) {
 }
 
 func c11MoreImports(r *Run) {
+	r.Floor("C11.R8", 8)
+	r.ImportFrom(runC14, map[string]string{"C14.R2": "C11.R8"}, map[string]string{
+		"C11.R8": "the replica-set counters, which the ExtendedDaemonSet controller takes decisions from (delete when all are zero), are written only from values computed by a planner on a non-error return — never zeroed or guessed on a failed read"})
 	r.ImportFrom(runC07, map[string]string{"C07.R5": "C11.R6"}, nil)
+}
+
+// c08ControllerKeepsPauseAnnotations (C08.R7): pause and freeze are withheld "while the annotation is
+// set" — so no reconciler may remove or rewrite the rolling-update-paused / rollout-frozen
+// annotation keys of an ExtendedDaemonSet itself (only the user and the CLI do). Every delete(m, k)
+// and m[k] = v on the annotations of an ExtendedDaemonSet reachable from a Reconcile is examined
+// when its key resolves to constants (a constant, or the elements of a local or package-level
+// literal it ranges over); unresolvable keys are not judged.
+func c08ControllerKeepsPauseAnnotations(r *Run) {
+	r.RuleDoc("C08.R7", "no reconciler deletes or rewrites the rolling-update-paused / rollout-frozen annotation of an ExtendedDaemonSet (the pause lasts while the user's annotation is set)")
+	paused, ok1 := r.Prog.constStr(pkgAPI, "ExtendedDaemonSetRollingUpdatePausedAnnotationKey")
+	frozen, ok2 := r.Prog.constStr(pkgAPI, "ExtendedDaemonSetRolloutFrozenAnnotationKey")
+	if !ok1 || !ok2 {
+		r.Fatal("pause/freeze annotation key constants not found")
+		return
+	}
+	var roots []*ssa.Function
+	for _, e := range reconcileEntries(r) {
+		roots = append(roots, e)
+	}
+	reach := r.Prog.reachableFuncs(roots...)
+	var ownedIP func(m ssa.Value, d int) bool
+	ownedIP = func(m ssa.Value, d int) bool {
+		if annotationsOwnedBy(m, "ExtendedDaemonSet") {
+			return true
+		}
+		if p, ok := m.(*ssa.Parameter); ok && d < 3 {
+			outs := r.Prog.stepOut(p)
+			if len(outs) == 0 {
+				return false
+			}
+			for _, o := range outs {
+				if !ownedIP(o, d+1) {
+					return false
+				}
+			}
+			return true
+		}
+		return false
+	}
+	n := 0
+	for _, fn := range sortedFuncs(reach) {
+		if !r.Prog.IsRuleSite(fn) {
+			continue
+		}
+		for _, b := range fn.Blocks {
+			for _, in := range b.Instrs {
+				var m, k ssa.Value
+				what := ""
+				switch x := in.(type) {
+				case *ssa.Call:
+					if bi, ok := x.Call.Value.(*ssa.Builtin); ok && bi.Name() == "delete" && len(x.Call.Args) == 2 {
+						m, k, what = x.Call.Args[0], x.Call.Args[1], "delete"
+					}
+				case *ssa.MapUpdate:
+					m, k, what = x.Map, x.Key, "write"
+				}
+				if m == nil || !ownedIP(m, 0) {
+					continue
+				}
+				keys, resolved := constStringsOf(r.Prog, k)
+				if !resolved {
+					continue
+				}
+				n++
+				bad := ""
+				for _, s := range keys {
+					if s == paused || s == frozen {
+						bad = s
+					}
+				}
+				r.Check("C08.R7", what+" of an ExtendedDaemonSet annotation", r.Prog.Pos(instrPos(in)), shortFunc(fn),
+					"the key is neither the rolling-update-paused nor the rollout-frozen annotation", bad == "",
+					"the reconciler itself removes/rewrites "+bad+": the pause or freeze ends without the user lifting it")
+			}
+		}
+	}
+	r.extra["C08.R7 annotation writes judged"] = n
+}
+
+// constStringsOf resolves a string value to the constants it can be: a constant, or an element of a
+// literal collection (local array/slice literal, or a package-level array/slice initialised once by
+// a literal) reached by indexing or ranging.
+func constStringsOf(p *Prog, v ssa.Value) ([]string, bool) {
+	v = unwrap(v)
+	if s, ok := constString(v); ok {
+		return []string{s}, true
+	}
+	var coll ssa.Value
+	switch x := v.(type) {
+	case *ssa.UnOp:
+		if x.Op == token.MUL {
+			if ia, ok := x.X.(*ssa.IndexAddr); ok {
+				coll = ia.X
+			}
+		}
+	case *ssa.Index:
+		coll = x.X
+	case *ssa.Extract:
+		if nx, ok := x.Tuple.(*ssa.Next); ok {
+			if rg, ok := nx.Iter.(*ssa.Range); ok {
+				coll = rg.X
+			}
+		}
+	}
+	if coll == nil {
+		return nil, false
+	}
+	// look through slicing and loads to the backing array
+	for i := 0; i < 6; i++ {
+		switch y := coll.(type) {
+		case *ssa.Slice:
+			coll = y.X
+			continue
+		case *ssa.UnOp:
+			if y.Op == token.MUL {
+				if g, ok := y.X.(*ssa.Global); ok {
+					return globalLiteralStrings(p, g)
+				}
+				coll = y.X
+				continue
+			}
+		}
+		break
+	}
+	switch a := coll.(type) {
+	case *ssa.Alloc:
+		var out []string
+		for _, rr := range refs(a) {
+			ia, ok := rr.(*ssa.IndexAddr)
+			if !ok {
+				continue
+			}
+			for _, r2 := range refs(ia) {
+				if st, ok := r2.(*ssa.Store); ok && st.Addr == ssa.Value(ia) {
+					s, okc := constString(unwrap(st.Val))
+					if !okc {
+						return nil, false
+					}
+					out = append(out, s)
+				}
+			}
+		}
+		return out, len(out) > 0
+	case *ssa.Global:
+		return globalLiteralStrings(p, a)
+	}
+	return nil, false
+}
+
+func globalLiteralStrings(p *Prog, g *ssa.Global) ([]string, bool) {
+	if g.Pkg == nil {
+		return nil, false
+	}
+	initFn := g.Pkg.Func("init")
+	if initFn == nil {
+		return nil, false
+	}
+	var out []string
+	for _, b := range initFn.Blocks {
+		for _, in := range b.Instrs {
+			st, ok := in.(*ssa.Store)
+			if !ok {
+				continue
+			}
+			// array global: stores to &g[i]; slice global: store of a slice of a local array
+			if ia, ok := st.Addr.(*ssa.IndexAddr); ok && ia.X == ssa.Value(g) {
+				s, okc := constString(unwrap(st.Val))
+				if !okc {
+					return nil, false
+				}
+				out = append(out, s)
+			}
+			if st.Addr == ssa.Value(g) {
+				if sl, ok := unwrap(st.Val).(*ssa.Slice); ok {
+					if a, ok := sl.X.(*ssa.Alloc); ok {
+						for _, rr := range refs(a) {
+							if ia, ok := rr.(*ssa.IndexAddr); ok {
+								for _, r2 := range refs(ia) {
+									if s2, ok := r2.(*ssa.Store); ok && s2.Addr == ssa.Value(ia) {
+										s, okc := constString(unwrap(s2.Val))
+										if !okc {
+											return nil, false
+										}
+										out = append(out, s)
+									}
+								}
+							}
+						}
+					}
+				}
+			}
+		}
+	}
+	return out, len(out) > 0
+}
+
+// ---- imports added after the fourth seeding round ------------------------------------------------
+
+func c10Imports(r *Run) {
+	r.Floor("C10.R10", 4)
+	r.ImportFrom(runC18, map[string]string{"C18.R5": "C10.R10"}, map[string]string{
+		"C10.R10": "the setting handed to the pod constructor and to the comparison for a node is a VALID ExtendedDaemonsetSetting that references this ExtendedDaemonSet and selects the node (the consumer takes nothing else)"})
+}
+
+func c14Imports(r *Run) {
+	r.Floor("C14.R5", 2)
+	r.ImportFrom(runC08, map[string]string{"C08.R4": "C14.R5"}, map[string]string{
+		"C14.R5": "outside a canary, status.state is computed from the pause/freeze annotations of the reconciled object by the state table (never a constant)"})
+}
+
+func c16Imports(r *Run) {
+	r.Floor("C16.R9", 2)
+	r.ImportFrom(runC09, map[string]string{"C09.R1": "C16.R9"}, map[string]string{
+		"C16.R9": "the creation budget used as a slice bound is >= 0 and <= the number of candidates on every return of the limits function (a negative user-supplied cap must never reach candidates[:k])"})
 }
